@@ -92,11 +92,19 @@ impl CryptoRng for Scripted {}
 pub enum AnyRng {
     Std(StdRng),
     Script(Scripted),
+    /// a generator whose byte interface is random but whose word-sized draws are CONSTANT and whose fallible
+    /// interface always fails: code that forks a local generator from `next_u64`, or falls back to a default when
+    /// `try_fill_bytes` fails, loses its randomness under it (the library as specified uses `fill_bytes` only)
+    Frugal(StdRng),
 }
 impl RngCore for AnyRng {
-    fn next_u32(&mut self) -> u32 { match self { AnyRng::Std(r) => r.next_u32(), AnyRng::Script(r) => r.next_u32() } }
-    fn next_u64(&mut self) -> u64 { match self { AnyRng::Std(r) => r.next_u64(), AnyRng::Script(r) => r.next_u64() } }
-    fn fill_bytes(&mut self, d: &mut [u8]) { match self { AnyRng::Std(r) => r.fill_bytes(d), AnyRng::Script(r) => r.fill_bytes(d) } }
-    fn try_fill_bytes(&mut self, d: &mut [u8]) -> Result<(), rand::Error> { self.fill_bytes(d); Ok(()) }
+    fn next_u32(&mut self) -> u32 { match self { AnyRng::Std(r) => r.next_u32(), AnyRng::Script(r) => r.next_u32(), AnyRng::Frugal(_) => 0x0101_0101 } }
+    fn next_u64(&mut self) -> u64 { match self { AnyRng::Std(r) => r.next_u64(), AnyRng::Script(r) => r.next_u64(), AnyRng::Frugal(_) => 0x0101_0101_0101_0101 } }
+    fn fill_bytes(&mut self, d: &mut [u8]) { match self { AnyRng::Std(r) => r.fill_bytes(d), AnyRng::Script(r) => r.fill_bytes(d), AnyRng::Frugal(r) => r.fill_bytes(d) } }
+    fn try_fill_bytes(&mut self, d: &mut [u8]) -> Result<(), rand::Error> {
+        if let AnyRng::Frugal(_) = self { return Err(rand::Error::new("the fallible interface of this generator always fails")); }
+        self.fill_bytes(d);
+        Ok(())
+    }
 }
 impl CryptoRng for AnyRng {}
